@@ -48,6 +48,71 @@ type fnGen struct {
 	deferred []*ast.CallExpr // the deferred calls registered so far (run last-in first-out before every return)
 	rename   map[types.Object]string // variables whose declaration hides another variable of the function: their Coq names
 	strOK    bool          // inside a discarded argument: string constants are accepted
+	addrTaken map[*types.Var]bool // local variables of a packed struct type whose address is taken: they also live in a one-cell object <name>__addr
+}
+
+// addrScan: the local variables x of a --packed struct type with &x somewhere in the function
+func (g *fnGen) addrScan() {
+	g.addrTaken = map[*types.Var]bool{}
+	if g.fi.decl.Body == nil {
+		return
+	}
+	ast.Inspect(g.fi.decl.Body, func(n ast.Node) bool {
+		u, ok := n.(*ast.UnaryExpr)
+		if !ok || u.Op != token.AND {
+			return true
+		}
+		if id, ok := ast.Unparen(u.X).(*ast.Ident); ok && g.t.packedOf(g.typeOf(id)) != nil {
+			if v, ok := g.info.Uses[id].(*types.Var); ok && !v.IsField() {
+				g.addrTaken[v] = true
+			}
+		}
+		return true
+	})
+	if len(g.addrTaken) == 0 {
+		return
+	}
+	// parameters and results live in no cell
+	sig := g.fi.obj.Type().(*types.Signature)
+	for i := 0; i < sig.Params().Len(); i++ {
+		if g.addrTaken[sig.Params().At(i)] {
+			g.failf(g.fi.decl, "address of the parameter %s", sig.Params().At(i).Name())
+		}
+	}
+	for i := 0; i < sig.Results().Len(); i++ {
+		if g.addrTaken[sig.Results().At(i)] {
+			g.failf(g.fi.decl, "address of the result %s", sig.Results().At(i).Name())
+		}
+	}
+}
+
+// addrSync: after a statement that declares or assigns the variables ids: the cell of an
+// address-taken variable is allocated at its declaration and follows every assignment
+// (the Coq variable is a cache of the cell; nothing is written through such pointers:
+// assignments through a pointer are refused)
+func (g *fnGen) addrSync(ids []ast.Expr) []string {
+	var out []string
+	for _, e := range ids {
+		id, ok := ast.Unparen(e).(*ast.Ident)
+		if !ok {
+			if sel, isSel := ast.Unparen(e).(*ast.SelectorExpr); isSel {
+				id, ok = ast.Unparen(sel.X).(*ast.Ident) // x.f = v on a packed variable rebuilds x
+			}
+			if !ok {
+				continue
+			}
+		}
+		v, _ := g.info.ObjectOf(id).(*types.Var)
+		if v == nil || !g.addrTaken[v] {
+			continue
+		}
+		name := g.idName(id)
+		if _, isDef := g.info.Defs[id]; isDef {
+			out = append(out, name+"__addr <- obj_new 1%nat ;;")
+		}
+		out = append(out, "_ <- fld_store "+name+"__addr 0%nat "+name+" ;;")
+	}
+	return out
 }
 
 func (g *fnGen) failf(n ast.Node, format string, a ...any) { g.t.failf(n, format, a...) }
@@ -170,6 +235,7 @@ func (t *tr) function(fi *fnInfo) string {
 		return b.String()
 	}
 	g.shadowCheck()
+	g.addrScan()
 	sig := fi.obj.Type().(*types.Signature)
 	var params []string
 	for _, p := range fi.params {
@@ -214,9 +280,7 @@ func (t *tr) function(fi *fnInfo) string {
 		}
 		params = append(params, "("+coqIdent(p.Name())+" : "+t.coqType(fi.decl, p.Type())+")")
 	}
-	if sig.Variadic() {
-		g.failf(fi.decl, "variadic function")
-	}
+	// a variadic parameter is the slice of the arguments (calls of variadic functions are refused at the call)
 	var rts []string
 	if fi.mutVia {
 		rts = append(rts, g.viaType)
@@ -580,6 +644,9 @@ func (g *fnGen) captured(lo, hi token.Pos, skip []svar, nodes ...ast.Node) []sva
 			if !sk[g.varName(v)] {
 				out = append(out, svar{g.varName(v), g.t.coqType(id, v.Type()), v.Pos()})
 			}
+			if g.addrTaken[v] {
+				out = append(out, svar{g.varName(v) + "__addr", "Z", v.Pos()})
+			}
 			return true
 		})
 	}
@@ -732,6 +799,9 @@ func (g *fnGen) block(list []ast.Stmt, k kctx) []string {
 		}
 		g.failf(s, "statement %s", s.Tok)
 	case *ast.AssignStmt:
+		if len(g.addrTaken) != 0 {
+			return append(append(g.assign(s), g.addrSync(s.Lhs)...), g.block(rest, k)...)
+		}
 		return append(g.assign(s), g.block(rest, k)...)
 	case *ast.IncDecStmt:
 		var p []binding
@@ -757,7 +827,10 @@ func (g *fnGen) block(list []ast.Stmt, k kctx) []string {
 			for i, id := range vs.Names {
 				var p []binding
 				var v string
-				if len(vs.Values) == 0 {
+				if pn := g.t.packedOf(g.info.Defs[id].Type()); pn != nil && len(vs.Values) == 0 {
+					// the zero value of a packed struct: all fields zero
+					v = g.t.packedParam(pn, "").name + strings.Repeat(" 0", pn.Underlying().(*types.Struct).NumFields())
+				} else if len(vs.Values) == 0 {
 					v = g.t.zeroOf(id, g.info.Defs[id].Type())
 				} else {
 					v = g.expr(vs.Values[i], &p)
@@ -767,6 +840,9 @@ func (g *fnGen) block(list []ast.Stmt, k kctx) []string {
 					name = g.idName(id)
 				}
 				out = append(out, emitPre(p, []string{"let " + name + " := " + v + " in"})...)
+				if len(g.addrTaken) != 0 {
+					out = append(out, g.addrSync([]ast.Expr{id})...)
+				}
 			}
 		}
 		return append(out, g.block(rest, k)...)
@@ -1180,11 +1256,21 @@ func (g *fnGen) loop(node ast.Stmt, cond ast.Expr, post ast.Stmt, body *ast.Bloc
 				rngVal = g.idName(id)
 			}
 		}
+		var st2 []svar
 		for _, v := range state {
-			if v.name == rngKey || v.name == rngVal {
+			if v.name == rngKey {
 				g.failf(rng, "assignment to the range variable %s", v.name)
 			}
+			if v.name == rngVal {
+				// the value variable is a per-iteration copy bound inside the body: assigning to it is local to the iteration
+				if g.addrTaken[g.varOf(rng.Value)] {
+					g.failf(rng, "address of the range variable %s", v.name)
+				}
+				continue
+			}
+			st2 = append(st2, v)
 		}
+		state = st2
 		state = append([]svar{{rngKey, "Z", rng.Pos()}}, state...)
 		pre = append(pre, "let "+rngKey+" := 0 in")
 	}
@@ -1936,6 +2022,12 @@ func (g *fnGen) expr(e ast.Expr, p *[]binding) string {
 			if id, ok := ast.Unparen(x.X).(*ast.Ident); ok && ptrSliceOf(g.typeOf(e)) {
 				if _, isVar := g.info.Uses[id].(*types.Var); isVar {
 					return g.expr(id, p)
+				}
+			}
+			if id, ok := ast.Unparen(x.X).(*ast.Ident); ok && g.t.ptrPacked(g.typeOf(e)) {
+				if v, isVar := g.info.Uses[id].(*types.Var); isVar && g.addrTaken[v] {
+					g.t.usesPtr = true
+					return g.idName(id) + "__addr"
 				}
 			}
 			if cl, ok := ast.Unparen(x.X).(*ast.CompositeLit); ok {
